@@ -154,3 +154,99 @@ Proof.
   apply reach_ind; [apply invA_init|].
   intros s0 t c s1 I H. apply step_inv in H. destruct H as [th [l [Ht H]]]. eapply invA_step; eauto.
 Qed.
+
+(* ---- absence of deadlock ---------------------------------------------------------------- *)
+(* when the next action of a goroutine is enabled (for a suitable answer of the driver) *)
+Definition can_step (s : state) (th : thread) : bool :=
+  match t_pc th with
+  | Idle => match t_ops th with [] => false | _ => true end
+  | P0 => match s_w s with None => true | Some _ => false end
+  | P3 e | C0 e => e_done (ent s e)
+  | P5 | P10 _ _ | P11 _ | X2 _ | R0 | K0 => lock_free s
+  | _ => true
+  end.
+
+Ltac enabled_with ch H :=
+  exists ch;
+  try match goal with |- exists x, ?f _ _ _ _ = Some x => unfold f end;
+  try match goal with |- exists x, ?f _ _ _ _ _ = Some x => unfold f end;
+  try match goal with |- exists x, ?f _ _ _ _ _ _ = Some x => unfold f end;
+  unfold goto, ret; cbv beta zeta; cbn [is_tau]; try rewrite H;
+  repeat match goal with
+         | |- exists x, match ?y with _ => _ end = Some x => destruct y eqn:?; try discriminate
+         | |- exists x, (if ?y then _ else _) = Some x => destruct y eqn:?; try discriminate
+         end;
+  solve [eexists; reflexivity].
+
+Lemma can_step_sound s t th :
+  can_step s th = true -> exists c x, step_th s t th c = Some x.
+Proof.
+  unfold can_step, step_th. destruct (t_pc th) eqn:E; intro H.
+  all: first [ enabled_with CNone H | enabled_with CPrepOk H | enabled_with CExecOk H ].
+Qed.
+
+Lemma cnt_pos_ex f l : 0 < cnt f l -> exists t th, nth_error l t = Some th /\ f th = true.
+Proof.
+  unfold cnt. induction l as [|x l IH]; cbn; [lia|].
+  destruct (f x) eqn:E.
+  - intros _. exists 0, x. auto.
+  - intro H. destruct (IH H) as [t [th [H1 H2]]]. exists (S t), th. auto.
+Qed.
+
+Lemma not_all_done_ex s : all_done s = false -> exists t th, nth_error (s_thr s) t = Some th /\ thread_done th = false.
+Proof.
+  unfold all_done. induction (s_thr s) as [|x l IH]; cbn; [discriminate|].
+  destruct (thread_done x) eqn:E.
+  - intro H. destruct (IH H) as [t [th [H1 H2]]]. exists (S t), th. auto.
+  - intros _. exists 0, x. auto.
+Qed.
+
+Lemma step_of_step_th s t th c x : nth_error (s_thr s) t = Some th -> step_th s t th c = Some x -> step s t c <> None.
+Proof. intros Ht H. unfold step, stepL. rewrite Ht, H. destruct x. discriminate. Qed.
+
+Lemma owner_can_step s th e : lock_free s = true -> owner_of (t_pc th) = Some e -> can_step s th = true.
+Proof. intros Hf Ho. unfold can_step. destruct (t_pc th); try discriminate Ho; auto. Qed.
+
+Lemma no_deadlock_inv s : invA s -> all_done s = false -> exists t c, step s t c <> None.
+Proof.
+  intros [W1 W2 R O] Hnd.
+  destruct (s_w s) as [tw|] eqn:Ew.
+  { destruct (W1 _ eq_refl) as [th [Ht Hh]].
+    assert (C : can_step s th = true) by (unfold can_step; destruct (t_pc th); try discriminate Hh; reflexivity).
+    destruct (can_step_sound s tw th C) as [c [x Hx]]. exists tw, c. eapply step_of_step_th; eauto. }
+  destruct (s_r s) as [|r] eqn:Er.
+  2:{ assert (Hp : 0 < cnt is_p1 (s_thr s)) by lia.
+      destruct (cnt_pos_ex _ _ Hp) as [t [th [Ht Hf]]].
+      assert (C : can_step s th = true) by (unfold can_step; unfold is_p1 in Hf; destruct (t_pc th); try discriminate Hf; reflexivity).
+      destruct (can_step_sound s t th C) as [c [x Hx]]. exists t, c. eapply step_of_step_th; eauto. }
+  assert (Hfree : lock_free s = true) by (unfold lock_free; rewrite Ew, Er; reflexivity).
+  destruct (not_all_done_ex s Hnd) as [t [th [Ht Hd]]].
+  destruct (can_step s th) eqn:C.
+  { destruct (can_step_sound s t th C) as [c [x Hx]]. exists t, c. eapply step_of_step_th; eauto. }
+  (* blocked although the lock is free: waiting for a [prepared] channel, whose owner can move *)
+  assert (W : exists e, e_done (ent s e) = false).
+  { unfold can_step in C. unfold thread_done in Hd. rewrite Ew, Hfree in C.
+    destruct (t_pc th); try discriminate C; eauto.
+    destruct (t_ops th); discriminate. }
+  destruct W as [e He].
+  assert (Hlt : e < length (s_ents s)).
+  { destruct (Nat.lt_ge_cases e (length (s_ents s))) as [|Hge]; [assumption|].
+    unfold ent in He. rewrite nth_overflow in He by exact Hge. discriminate He. }
+  destruct (O e Hlt He) as [t1 [th1 [Ht1 Ho1]]].
+  pose proof (owner_can_step s th1 e Hfree Ho1) as C1.
+  destruct (can_step_sound s t1 th1 C1) as [c [x Hx]]. exists t1, c. eapply step_of_step_th; eauto.
+Qed.
+
+(* no deadlock: in every reachable state in which some goroutine has not finished, some
+   goroutine can take a step (driver calls return: the environment offers an outcome) *)
+Lemma no_deadlock progs s : reach progs s -> all_done s = false -> exists t c, step s t c <> None.
+Proof. intros Hr. apply no_deadlock_inv, (invA_reach progs), Hr. Qed.
+
+(* mutual exclusion and reader/writer exclusion as by-products *)
+Lemma writer_unique progs s t1 t2 th1 th2 :
+  reach progs s -> nth_error (s_thr s) t1 = Some th1 -> nth_error (s_thr s) t2 = Some th2 ->
+  holder (t_pc th1) = true -> holder (t_pc th2) = true -> t1 = t2.
+Proof.
+  intros Hr H1 H2 Hh1 Hh2. destruct (invA_reach _ _ Hr) as [_ W2 _ _].
+  pose proof (W2 _ _ H1 Hh1). pose proof (W2 _ _ H2 Hh2). congruence.
+Qed.
